@@ -1345,7 +1345,7 @@ def rule_option_independence(model):
 RULES = [_inl(rule_index), _inl(rule_prefix), _inl(rule_providers),
          _inl(rule_empty),
          _inl(rule_twins), _inl(rule_own_namespace),
-         rule_pair_predicate, rule_absent_vs_none,
+         rule_pair_predicate, _inl(rule_absent_vs_none),
          _inl(rule_skip_scope), rule_prefix_store, rule_access_kind,
          _inl(rule_option_independence)]
 EXPLANATION = (
